@@ -550,7 +550,7 @@ def parse_contracts(repo, lock_names):
         except OSError:
             continue
         # comment blocks followed by a declaration
-        for m in re.finditer(r"(/\*.*?\*/|(?:[ \t]*//[^\n]*\n)+)\s*((?:static\s+|extern\s+|const\s+|unsigned\s+|struct\s+)*[A-Za-z_]\w*[\s\*]+\**\s*([A-Za-z_]\w*)\s*\()", src, re.S):
+        for m in re.finditer(r"(/\*(?:(?!\*/).)*\*/|(?:[ \t]*//[^\n]*\n)+)\s*((?:static\s+|extern\s+|const\s+|unsigned\s+|struct\s+)*[A-Za-z_]\w*[\s\*]+\**\s*([A-Za-z_]\w*)\s*\()", src, re.S):
             comment, fname = m.group(1), m.group(3)
             cm = CONTRACT_RE.search(re.sub(r"\n\s*(\*|//)", " ", comment))
             if not cm:
